@@ -79,7 +79,9 @@ class BuildLock:
 
 def coq_make(targets, timeout=1500):
     """make the given .vo targets (relative to coq/). returns (ok, output)"""
+    import mkproject
     with BuildLock():
+        mkproject.main()
         if not os.path.exists(os.path.join(COQ, "Makefile")) or \
            os.path.getmtime(os.path.join(COQ, "Makefile")) < os.path.getmtime(os.path.join(COQ, "_CoqProject")):
             subprocess.run(["coq_makefile", "-f", "_CoqProject", "-o", "Makefile"], cwd=COQ, capture_output=True)
@@ -201,9 +203,9 @@ def go_harness(ctx, module, pkg, run_regex, injected, env=None, timeout=900, rac
 
 def harness_pkg(ctx, key, run_regex, **kw):
     """run the harness registered under `key` in harness/packages.json: every .go file of its dir is injected"""
-    reg = json.load(open(os.path.join(VERIF, "harness", "packages.json")))[key]
+    reg = json.load(open(os.path.join(VERIF, "harness", key, "pkg.json")))
     inj = {}
-    for f in sorted(glob.glob(os.path.join(VERIF, reg["dir"], "*.go"))):
+    for f in sorted(glob.glob(os.path.join(VERIF, "harness", key, "*.go"))):
         inj[os.path.join(reg["target"], os.path.basename(f))] = f
     return go_harness(ctx, reg["module"], reg["pkg"], run_regex, inj, **kw)
 
